@@ -239,7 +239,7 @@ package internal
 //@   prop C04, C03
 //@   requires tiInv(t) && cb != nil
 //@   // exactly the requested delay, one shot
-//@   assert call TimerfdSettime#2: arg0 == t.fd && arg1 == 0 && arg2.Value.Sec * 1000000000 + arg2.Value.Nsec == int64(dur) &&
+//@   assert call TimerfdSettime: arg0 == t.fd && arg1 == 0 && arg2.Value.Sec * 1000000000 + arg2.Value.Nsec == int64(dur) &&
 //@          arg2.Interval.Sec == 0 && arg2.Interval.Nsec == 0
 //@   ensures [armed] result == nil ==> armed(&t.slot, PollerReadEvent) && t.slot.Handlers[0] != nil
 //@   ensures [write-side] !old(armed(&t.slot, PollerReadEvent)) ==> armed(&t.slot, PollerWriteEvent) == old(armed(&t.slot, PollerWriteEvent))
